@@ -94,6 +94,35 @@ CHECKS.update({
     ),
 })
 
+CHECKS.update({
+    "C05": dict(
+        engine="Integrity.tla", category="fault_enumeration",
+        text="Integrity.tla (Dataset.tla + one Tamper step: garbage, deletion, rollback to any older version, "
+             "replacement by another file's content, on any file after any history) is model checked for "
+             "PassWhenClean / DetectTamper / DetectInfoTamper, so the design of the check has no blind spot for "
+             "reachable files; that the real check() is this algorithm is established by enumerating faults on real "
+             "datasets (flat, continued, nested, multi-writer; 0..13 algorithms incl. repeated ones): every "
+             "reachable file x {bit flips, truncations, extensions, deletion, swap with sibling, rollback to every "
+             "recorded older version}, plus the description with and without expected checksums.",
+        design_ref="DESIGN.md 3.5, 5/C05",
+        note="Quick tier samples byte offsets (first, middle, last + 32 random per file); the thorough tier takes "
+             "every offset of every file of 12 datasets. No digest collisions assumed.",
+        technique="TLA+ model checking of the check algorithm under tampering + exhaustive fault enumeration on real datasets",
+    ),
+    "C12": dict(
+        engine="Select.tla, Select_Eval.tla", category="model_checking",
+        text="Select.tla transcribes the selection routine; TLC enumerates the complete cell space (every layout "
+             "of <=4/5 shards over 3 metadata values x every predicate x k x limit) and checks its meta-properties "
+             "(subsequence, cut before limit, limit keeps the earliest, empty => error). Every cell is executed on "
+             "the real shard_paths_dataset and a covering sample through all five iteration interfaces on fb, npz "
+             "and tfrec datasets with that layout; TLC (Select_Eval) judges observed selection = Select(cell).",
+        design_ref="DESIGN.md 3.5, 5/C12",
+        note="Exhaustive over the stated cell space for the common selection routine; per-interface forwarding of "
+             "the options is sampled (>=150 cells per interface in quick).",
+        technique="TLA+ enumeration of the decision table + TLC-judged replay of every cell on the real code",
+    ),
+})
+
 NOT_YET = {}
 
 ALL = [f"C{i:02d}" for i in range(1, 21)]
